@@ -47,7 +47,7 @@ Proof.
 Qed.
 
 Lemma rate_ok_spec : forall r, rate_ok r = true -> 0 <= r <= 3.
-Proof. intros r H. unfold rate_ok in H. lia. Qed.
+Proof. intros r H. unfold rate_ok in H. change (zlen Gen_scgftables.gen_rate_names) with 4 in H. lia. Qed.
 
 Definition nouts (u : ugen) : Z := zlen (u_outs u).
 
